@@ -121,6 +121,15 @@ M = [
     ("C15", "login-failure-not-resumed", P + "proxy/http_event_manager.py",
      "        if cap_data.cap_name == \"LoginRequest\":\n            self._handle_login_flow(flow)\n            return",
      "        if cap_data.cap_name == \"LoginRequest\":\n            flow.taken = True\n            self._handle_login_flow(flow)\n            flow.taken = False\n            return"),
+    ("C06", "main-region-before-handle", P + "proxy/lludp_proxy.py",
+     "            if region.handle is None:\n                region.handle = message[\"Data\"][\"RegionHandle\"]\n            self.session.main_region = region\n",
+     "            self.session.main_region = region\n            if region.handle is None:\n                region.handle = message[\"Data\"][\"RegionHandle\"]\n"),
+    ("C14", "regionless-never-picked-up", P + "client/object_manager.py",
+     "        changed_region = old_region_handle != new_region_handle or old_region_state is None\n",
+     "        changed_region = old_region_handle != new_region_handle\n"),
+    ("C14", "regionless-untracked-from-region-that-never-had-it", P + "client/object_manager.py",
+     "        if old_region_state is not None and old_region_state.lookup_localid(old_local_id) is not obj:\n",
+     "        if old_region_state is not None and False:\n"),
     # ---- C16 ----
     ("C16", "caps-append", P + "proxy/region.py", "        vals = [value] + self.popall(key, [])", "        vals = self.popall(key, []) + [value]"),
     ("C16", "temporary-not-consumed", P + "proxy/region.py", "                if cap_type == CapType.TEMPORARY and consume:",
